@@ -33,15 +33,25 @@ theorem wf_step_partial (env : Env) (b : Book) (o : User.Op) (hk : keepsSheets o
   have := ks_doOp env b o hk
   rw [WFBook_congr env this.1 this.2]; exact h
 
-theorem dom_keepsSheets (env : Env) (b : Book) (o : User.Op) (h : dom env b o = true) :
+/-- the domain of `wf_reachable_partial`: `dom` restricted to the operations that keep the sheet
+    list (new/delete/rename sheet are compared with the code but their `WFBook` step is not proved) -/
+def domK (env : Env) (b : Book) (o : User.Op) : Bool := dom env b o && keepsSheets o
+
+theorem lawsK (env : Env) : Laws (sys env) (fun w => w) (fun b o => domK env b o = true) where
+  inv := fun w o ds hd => (laws env).inv w o ds (by simp [domK] at hd; exact hd.1)
+  fwd := fun w o ds hd => (laws env).fwd w o ds (by simp [domK] at hd; exact hd.1)
+  quiet := fun w o hd => (laws env).quiet w o (by simp [domK] at hd; exact hd.1)
+  atomic := fun w o e hd => (laws env).atomic w o e (by simp [domK] at hd; exact hd.1)
+
+theorem dom_keepsSheets (env : Env) (b : Book) (o : User.Op) (h : domK env b o = true) :
     keepsSheets o = true := by
-  cases o <;> simp_all [dom, keepsSheets]
+  simp [domK] at h; exact h.2
 
 /-- all histories over the domain (operations, failed calls, undo, redo, flush): every state
     reached is well-formed.  Undo/redo are covered through the cursor refinement: they return to a
     state that an operation produced earlier. -/
 theorem wf_reachable_partial (env : Env) (cs : List (Cmd User.Op))
-    (hd : AllDom (sys env) (fun b o => dom env b o = true) St.init cs) :
+    (hd : AllDom (sys env) (fun b o => domK env b o = true) St.init cs) :
     WFBook env (run (sys env) St.init cs).w = true := by
   -- invariant: the machine refines a cursor whose remembered states are all well-formed
   let Inv : St Book Diff → Cur User.Op Book → Prop := fun s c =>
@@ -54,11 +64,11 @@ theorem wf_reachable_partial (env : Env) (cs : List (Cmd User.Op))
     cases hc : c.done with
     | nil => exact hb
     | cons e dn => exact hdn e (by rw [hc]; exact List.mem_cons_self)
-  have stepInv : ∀ s c cmd, Inv s c → CmdDom (fun b o => dom env b o = true) s cmd →
+  have stepInv : ∀ s c cmd, Inv s c → CmdDom (fun b o => domK env b o = true) s cmd →
       Inv (step (sys env) s cmd).1 (specStep (sys env) (fun w => w) s c cmd) := by
     intro s c cmd hI hcd
     obtain ⟨hr, hb, hdn, hun⟩ := hI
-    refine ⟨step_refines (sys env) (fun w => w) _ (laws env) s c hr cmd hcd, ?_⟩
+    refine ⟨step_refines (sys env) (fun w => w) _ (lawsK env) s c hr cmd hcd, ?_⟩
     cases cmd with
     | op o =>
       have hwf : WFBook env (doOp env s.w o).w = true :=
@@ -97,7 +107,7 @@ theorem wf_reachable_partial (env : Env) (cs : List (Cmd User.Op))
         · exact hdn x hx
     | flush => exact ⟨hb, hdn, hun⟩
   have runInv : ∀ (cs : List (Cmd User.Op)) s c, Inv s c →
-      AllDom (sys env) (fun b o => dom env b o = true) s cs →
+      AllDom (sys env) (fun b o => domK env b o = true) s cs →
       ∃ c', Inv (run (sys env) s cs) c' := by
     intro cs
     induction cs with
